@@ -54,7 +54,7 @@ impl Monitor for C11 {
             let o = &outs[k - 1];
             if aggregate {
                 if let Some(t) = &o.out { if !same_rows(t, &shown, 0.0) { changes += 1; } shown = t.clone(); }
-                if !same_rows(&shown, &batch, 1e-9) {
+                if !identical_rows(&shown, &batch) {
                     let kind = if shown.rows.len() < batch.rows.len() { "rows-missing" } else if shown.rows.len() > batch.rows.len() { "rows-extra" } else { "cells-differ" };
                     vs.push(Violation::new(format!("incremental|{}|{}|{}", feat, if k == 1 { "first-refresh" } else { "later-refresh" }, kind), format!("{:?} after line {} of {}: shown {} ; batch over that prefix {}", base.sql, k, base.lines.len(), show_rows(&shown, 4), show_rows(&batch, 4))));
                     break;
@@ -63,7 +63,7 @@ impl Monitor for C11 {
                 let emitted: Vec<_> = o.out.as_ref().map(|r| r.rows.clone()).unwrap_or_default();
                 if !emitted.is_empty() { changes += 1; }
                 let mut want = prev_batch.rows.clone(); want.extend(emitted.iter().cloned());
-                let ok = want.len() == batch.rows.len() && want.iter().zip(batch.rows.iter()).all(|(a, b2)| a.len() == b2.len() && a.iter().zip(b2.iter()).all(|(x, y)| x.same(y, 0.0)));
+                let ok = want.len() == batch.rows.len() && want.iter().zip(batch.rows.iter()).all(|(a, b2)| a.len() == b2.len() && a.iter().zip(b2.iter()).all(|(x, y)| x.identical(y)));
                 if !ok { vs.push(Violation::new(format!("incremental|{}|emitted-rows-are-not-the-batch-suffix", feat), format!("{:?} line {}: emitted {} rows, batch grew from {} to {} rows", base.sql, k, emitted.len(), prev_batch.rows.len(), batch.rows.len()))); break; }
             }
             if changes >= 2 { obs.sub(crate::rng::mix(&[base.tag, k as u64])); }
